@@ -51,10 +51,10 @@ def pair_class(x, y):
         return "D-T-placement"
     if x[0] == y[0] and x[1] == y[1] and x[2] != y[2]:
         return "charge-states-of-one-nuclide"
-    if x[0] == y[0] and (x[1] == 0) != (y[1] == 0) and x[2] == y[2]:
+    if x[0] == y[0] and (x[1] == 0) != (y[1] == 0):
         return "natural-vs-isotope"
     if x[0] == y[0]:
-        return "same-element-isotope-and-charge-differ"
+        return "isotopes-of-one-element"
     return "pair-ordered-by-the-statement"
 
 
